@@ -13,7 +13,7 @@ use serde_json::json;
 pub static SPEC: PropSpec = PropSpec {
     id: "C17",
     level: "exploration",
-    rule: "calls: receiver types {int32, int64, uint8, bool, string, unit, struct, enum, generic struct instance, tuple, nested struct} x receiver expression {variable, literal / struct literal / constructor, field projection, annotated call result} x call form {Tr::m(x, a); t.m(a) through T: Tr; Tr::m(t, a) through T: Tr; Tr::m(d, a) after `let d: dyn Tr = x`; through a `dyn Tr` parameter; element of Vec[dyn Tr] bound to a variable; second trait with the same method name; `impl Tr2 for dyn Tr1`; inherent x.im(a) and T::im(x, a)}; every applicable combination is emitted (a random subset of types per program, all forms) and every call prints the implementation's code. negative: dyn coercion of a type without impl (5 forms), Tr2::m on a `dyn Tr1` without impl, method call through two bounds declaring the same method, unknown method. non-trivial: every executed call; distinct by (type, receiver form, call form)",
+    rule: "calls: receiver types {int32, int64, uint8, bool, string, unit, struct, enum, generic struct instance, tuple, nested struct} x receiver expression {variable, literal / struct literal / constructor, field projection, annotated call result} x call form {Tr::m(x, a); t.m(a) through T: Tr; Tr::m(t, a) through T: Tr; Tr::m(d, a) after `let d: dyn Tr = x`; through a `dyn Tr` parameter; element of Vec[dyn Tr] bound to a variable; second trait with the same method name; `impl Tr2 for dyn Tr1`; inherent x.im(a) and T::im(x, a)}; every applicable combination is emitted (a random subset of types per program, all forms) and every call prints the implementation's code; two-package projects in which the trait, five receiver types (struct, enum, generic enum, generic struct, nested struct), their impls and inherent methods live in an imported package and Main uses every call form on variables, annotated call results and parameters of those types. negative: dyn coercion of a type without impl (5 forms), Tr2::m on a `dyn Tr1` without impl, method call through two bounds declaring the same method, unknown method. non-trivial: every executed call; distinct by (type, receiver form, call form)",
     eval_counter: "calls_checked",
     assumptions: &["relative to gomini's execution of the emitted Go; expected values are computed from the templates"],
     crash_is_violation: false,
@@ -21,7 +21,7 @@ pub static SPEC: PropSpec = PropSpec {
     case_cpu_s: 120,
     shards: 0,
     run,
-    floors: &[("calls_checked", 3_000, 100_000), ("programs_agree", 40, 1_500), ("negatives_rejected", 40, 600)],
+    floors: &[("calls_checked", 3_000, 100_000), ("programs_agree", 40, 1_500), ("negatives_rejected", 40, 600), ("foreign_projects_agree", 12, 200)],
     finish: None,
 };
 
@@ -310,6 +310,164 @@ fn run_negative(c: &mut Case, n: &Negative, decoy: &str) {
     }
 }
 
+/// receiver types that live in an imported package `Lib` (traits, impls and inherent methods too); Main reaches
+/// them through every call form: (files, expected lines, cells)
+struct ForeignTy {
+    name: &'static str,
+    ty: &'static str,
+    /// (literal as written in Main, digest)
+    literals: &'static [(&'static str, i64)],
+    digest: &'static str,
+    /// path of the type's head for `Head::im(x, a)`
+    head: &'static str,
+}
+const FOREIGN: &[ForeignTy] = &[
+    ForeignTy { name: "St", ty: "Lib::St", literals: &[("Lib::St { v: 3 }", 3), ("Lib::St { v: 88 }", 88)], digest: "self.v", head: "Lib::St" },
+    ForeignTy { name: "En", ty: "Lib::En", literals: &[("Lib::En::A(6)", 6), ("Lib::En::B", 0), ("Lib::En::C(2, true)", 3)], digest: "(match self { En::A(k) => k, En::B => 0, En::C(k, b) => if b { k + 1 } else { k } })", head: "Lib::En" },
+    ForeignTy { name: "OptI", ty: "Lib::Opt[int32]", literals: &[("Lib::Opt::Som(9)", 9), ("Lib::Opt::Non", 0)], digest: "(match self { Opt::Som(k) => k, Opt::Non => 0 })", head: "Lib::Opt" },
+    ForeignTy { name: "GnI", ty: "Lib::Gn[int32]", literals: &[("Lib::Gn { it: 9 }", 9)], digest: "self.it", head: "Lib::Gn" },
+    ForeignTy { name: "Nest", ty: "Lib::Nest", literals: &[("Lib::Nest { inner: Lib::St { v: 2 }, tag: 30 }", 32)], digest: "self.inner.v + self.tag", head: "Lib::Nest" },
+];
+
+fn build_foreign_project(rng: &mut Rng) -> (Vec<(std::path::PathBuf, String)>, Vec<String>, Vec<String>) {
+    let mut lib = String::from("package Lib\n\ntrait Tr1 {\n    fn zm(Self, int32) -> int32;\n    fn m(Self, int32) -> int32;\n    fn n(Self) -> string;\n}\n\nstruct St { v: int32 }\nenum En { A(int32), B, C(int32, bool) }\nenum Opt[T] { Som(T), Non }\nstruct Gn[T] { it: T }\nstruct Nest { inner: St, tag: int32 }\n\n");
+    let mut main = String::from("package Main\nimport Lib\n\nfn g_dot[T: Lib::Tr1](t: T, a: int32) -> int32 { t.m(a) }\nfn g_ufcs[T: Lib::Tr1](t: T, a: int32) -> int32 { Lib::Tr1::m(t, a) }\nfn via_param(d: dyn Lib::Tr1, a: int32) -> int32 { Lib::Tr1::m(d, a) }\n\nfn main() -> unit {\n");
+    let mut expected = Vec::new();
+    let mut cells = Vec::new();
+    for (k, t) in FOREIGN.iter().enumerate() {
+        let code = (k as i64 + 1) * 1000;
+        let local_ty = t.ty.replace("Lib::", "");
+        // generic types: the inherent block is generic, the trait impl is for the int32 instance
+        let (impl_head, self_ty) = match t.name {
+            "OptI" => ("impl[T] Opt[T]".to_string(), "Opt[T]".to_string()),
+            "GnI" => ("impl[T] Gn[T]".to_string(), "Gn[T]".to_string()),
+            _ => (format!("impl {}", local_ty), local_ty.clone()),
+        };
+        let inh_digest = match t.name {
+            "OptI" => "(match self { Opt::Som(_) => 1, Opt::Non => 0 })",
+            "GnI" => "7",
+            _ => t.digest,
+        };
+        lib.push_str(&format!("impl Tr1 for {ty} {{\n    fn zm(self: {ty}, a: int32) -> int32 {{ 0 - 777 }}\n    fn m(self: {ty}, a: int32) -> int32 {{ {code} + a + {dg} }}\n    fn n(self: {ty}) -> string {{ \"{nm}\" }}\n}}\n", ty = local_ty, code = code, dg = t.digest, nm = t.name));
+        lib.push_str(&format!("{head} {{\n    fn im(self: {st}, a: int32) -> int32 {{ {c} + a + {dg} }}\n}}\n", head = impl_head, st = self_ty, c = code + 100_000, dg = inh_digest));
+        let (lit, dg) = *rng.pick_ref(t.literals);
+        let inh_dg: i64 = match t.name {
+            "OptI" => if lit.contains("Som") { 1 } else { 0 },
+            "GnI" => 7,
+            _ => dg,
+        };
+        lib.push_str(&format!("fn make{k}() -> {ty} {{ {lit} }}\n\n", k = k, ty = local_ty, lit = lit.replace("Lib::", "")));
+        let mut a = 0i64;
+        for rf in ["variable", "annotated-call", "parameter"] {
+            let recv = format!("r{}{}", k, &rf[..1]);
+            match rf {
+                "variable" => main.push_str(&format!("    let {}: {} = {};\n", recv, t.ty, lit)),
+                "annotated-call" => main.push_str(&format!("    let {}: {} = Lib::make{}();\n", recv, t.ty, k)),
+                _ => {}
+            }
+            let mut line = |main: &mut String, call: String, val: i64, form: &str| {
+                main.push_str(&format!("    let _ = string_println(int32_to_string({}));\n", call));
+                expected.push(val.to_string());
+                cells.push(format!("foreign-{}|{}|{}", t.name, rf, form));
+            };
+            if rf == "parameter" {
+                // the receiver is a parameter of a Main function whose type is the imported type
+                a += 1;
+                line(&mut main, format!("on_param{}({}, {})", k, lit, a), 2 * (code + a + dg) + (code + 100_000 + a + inh_dg) * 2, "all-forms-on-parameter");
+                continue;
+            }
+            a += 1;
+            line(&mut main, format!("Lib::Tr1::m({}, {})", recv, a), code + a + dg, "concrete-ufcs");
+            a += 1;
+            line(&mut main, format!("g_dot({}, {})", recv, a), code + a + dg, "generic-dot");
+            a += 1;
+            line(&mut main, format!("g_ufcs({}, {})", recv, a), code + a + dg, "generic-ufcs");
+            a += 1;
+            line(&mut main, format!("via_param({}, {})", recv, a), code + a + dg, "dyn-param");
+            a += 1;
+            line(&mut main, format!("{}.im({})", recv, a), code + 100_000 + a + inh_dg, "inherent-dot");
+            a += 1;
+            line(&mut main, format!("{}::im({}, {})", t.head, recv, a), code + 100_000 + a + inh_dg, "inherent-ufcs");
+        }
+    }
+    main.push_str("    ()\n}\n");
+    for (k, t) in FOREIGN.iter().enumerate() {
+        main.push_str(&format!("fn on_param{k}(p: {ty}, a: int32) -> int32 {{\n    let d: dyn Lib::Tr1 = p;\n    Lib::Tr1::m(p, a) + Lib::Tr1::m(d, a) + p.im(a) + {head}::im(p, a)\n}}\n", k = k, ty = t.ty, head = t.head));
+    }
+    (vec![(std::path::PathBuf::from("Lib/lib.gom"), lib), (std::path::PathBuf::from("main.gom"), main)], expected, cells)
+}
+
+fn check_foreign_project(c: &mut Case, label: &str, rng: &mut Rng, scratch: &std::path::Path) {
+    let (files, expected, cells) = build_foreign_project(rng);
+    let root = scratch.join(format!("c17f-{}-{}", std::process::id(), util::hex64(hash_str(label))));
+    let _ = std::fs::remove_dir_all(&root);
+    let order: Vec<usize> = (0..files.len()).collect();
+    if crate::projgen::materialize(&root, &files, &order).is_err() {
+        c.inconclusive("cannot materialise project");
+        return;
+    }
+    let srcs: String = files.iter().map(|(p, t)| format!("// ---- {}\n{}\n", p.display(), t)).collect();
+    runner::note_input(&srcs);
+    let whole = runner::guard(|| crate::projdrv::observe_whole(&root));
+    let _ = std::fs::remove_dir_all(&root);
+    let whole = match whole {
+        Ok(o) => o,
+        Err(p) => {
+            c.violation("C17:compiler-crash-on-valid-program:foreign-receivers".to_string(), format!("the two-package call-form project crashes the compiler at {}", p.site), json!({"label": label, "sources": srcs}));
+            return;
+        }
+    };
+    if whole.get("whole/result").map_or(true, |r| r != "ok") {
+        let d = whole.get("whole/diagnostics").cloned().unwrap_or_default();
+        c.violation(
+            format!("C17:program-rejected:foreign-receivers:{}", crate::diff::msg_class(d.lines().nth(1).unwrap_or(""))),
+            format!("a call form on a receiver whose type comes from an imported package is rejected: {}", util::truncate(&d, 300)),
+            json!({"label": label, "diagnostics": d, "sources": srcs}),
+        );
+        return;
+    }
+    let Some(go) = whole.get("whole/dump/go") else { return };
+    let gp = crate::goexec::parse(go);
+    match crate::goexec::vet(&gp) {
+        crate::goexec::Vet::Accept => {}
+        crate::goexec::Vet::Unsupported(u) => {
+            c.inconclusive(format!("gomini vet unsupported: {}", u));
+            return;
+        }
+        crate::goexec::Vet::Reject(errs) => {
+            c.violation(format!("C17:invalid-go:{}", errs[0].0), format!("the two-package call-form project yields invalid Go: {}", util::truncate(&errs[0].2, 160)), json!({"label": label, "sources": srcs}));
+            return;
+        }
+    }
+    let r = crate::goexec::run(&gp, 20_000_000, gomini::Sched::Deterministic);
+    if !matches!(r.term, Term::Ok) {
+        if matches!(r.term, Term::Unsupported(_) | Term::Budget) {
+            c.inconclusive(format!("gomini: {:?}", r.term));
+            return;
+        }
+    }
+    let got: Vec<&str> = r.stdout.lines().collect();
+    for (i, e) in expected.iter().enumerate() {
+        match got.get(i) {
+            Some(g) if g == e => {
+                c.count("calls_checked", 1);
+                c.count("foreign_receiver_calls_checked", 1);
+                c.nontrivial(hash_str(&cells[i]));
+            }
+            other => {
+                let parts: Vec<&str> = cells[i].split('|').collect();
+                c.violation(
+                    format!("C17:wrong-implementation:{}:{}:{}", parts.get(2).unwrap_or(&""), parts.get(0).unwrap_or(&""), if other.is_none() { "fails" } else { "other-result" }),
+                    format!("call cell {} prints {:?}, expected {}", cells[i], other, e),
+                    json!({"label": label, "cell": cells[i], "expected": e, "got": other, "stderr": util::truncate(&r.stderr, 300), "sources": srcs}),
+                );
+                return;
+            }
+        }
+    }
+    c.count("foreign_projects_agree", 1);
+}
+
 fn run(ctx: &mut Ctx) {
     let tier = ctx.tier;
     let seed = ctx.seed;
@@ -388,6 +546,21 @@ fn run(ctx: &mut Ctx) {
                 run_negative(c, neg, &decoy);
                 if r == 0 {
                     c.sample(json!({"workload": format!("negative: {}", neg.name)}));
+                }
+            });
+        }
+    }
+    // receivers whose type, trait and impls live in an imported package
+    {
+        let scratch = crate::util::scratch_base();
+        let nf = tier.pick(16u64, 320u64) / ctx.nshards as u64 + 1;
+        for j in 0..nf {
+            let mut rng = Rng::keyed(seed, "c17-foreign", ctx.shard as u64, j);
+            let label = format!("foreign/{}/{}", ctx.shard, j);
+            ctx.case(&label.clone(), |c| {
+                check_foreign_project(c, &label, &mut rng, &scratch);
+                if j == 0 {
+                    c.sample(json!({"workload": "call forms on receivers from an imported package", "types": FOREIGN.iter().map(|t| t.ty).collect::<Vec<_>>()}));
                 }
             });
         }
